@@ -518,3 +518,75 @@ Proof.
   apply (reply_config_any_state cL (restart_state file cB saved) h t m r); auto.
   apply loaded_cfg_ok. exact Hn.
 Qed.
+
+(* ---------------------------------------------------------------- *)
+(* what the server promised against what it records: every ACK, from any state *)
+
+Lemma granted_of_reply c t m x b : t <> RNak -> granted_secs (mk_reply c t m x b) = lease_secs.
+Proof.
+  intros Ht. unfold granted_secs. rewrite (lease_reply_opts c t m x b 51 Ht).
+  assert (E51 : alookup 51 (lease_opts c b (match t with ROffer => 2 | RAck => 5 | RNak => 6 end)) = Some (ipb 14400))
+    by (unfold lease_opts, n_options; destruct b; reflexivity).
+  rewrite E51. vm_compute. reflexivity.
+Qed.
+
+Lemma do_ack_record c now m s l s' r :
+  do_ack c now m s l = (s', Some r) ->
+  exists l3, tget (l_cid l) (tbl s') = Some l3 /\ l_state l3 = SAllocated /\
+             l_exp l3 = (now + lease_secs)%Z /\ granted_secs r = lease_secs /\
+             r_yi r = match l_ip l3 with Some y => y | None => 0 end.
+Proof.
+  unfold do_ack.
+  set (l2 := match l_state l with SDiscover => set_offer (set_ip l (l_offer l)) None | _ => l end).
+  assert (Hk : l_cid l2 = l_cid l) by (unfold l2; destruct (l_state l); reflexivity).
+  set (l3 := set_exp (set_state l2 SAllocated) (now + lease_secs)%Z).
+  intros H. apply pair_equal_spec in H as [Hs Hr]. exists l3. subst s'.
+  split; [|split; [reflexivity|split; [reflexivity|split]]].
+  - unfold set_ss, put, set_tbl, tset. cbn [tbl tget]. change (l_cid l3) with (l_cid l2). rewrite Hk, N.eqb_refl. reflexivity.
+  - inversion Hr. apply granted_of_reply. discriminate.
+  - inversion Hr. reflexivity.
+Qed.
+
+Lemma request_ack_record c now s0 m s' r :
+  handleRequest c now s0 m = (s', Some r) -> is_ack r = true ->
+  exists l3, tget (getcid m) (tbl s') = Some l3 /\ l_state l3 = SAllocated /\
+             l_exp l3 = (now + lease_secs)%Z /\ granted_secs r = lease_secs /\
+             r_yi r = match l_ip l3 with Some y => y | None => 0 end.
+Proof.
+  unfold handleRequest.
+  destruct (classify m) as [oper req].
+  destruct (req =? 0); [intros H; apply pair_equal_spec in H as [_ H]; discriminate|].
+  destruct (findOrCreate c s0 (getcid m) (m_chaddr m)) as [s1 l] eqn:F.
+  apply foc_spec in F as [_ [_ [_ [Hk _]]]].
+  assert (A : forall s2 s'', do_ack c now m s2 l = (s'', Some r) -> s'' = s' ->
+              exists l3, tget (getcid m) (tbl s') = Some l3 /\ l_state l3 = SAllocated /\
+                         l_exp l3 = (now + lease_secs)%Z /\ granted_secs r = lease_secs /\
+                         r_yi r = match l_ip l3 with Some y => y | None => 0 end).
+  { intros s2 s'' H E. subst s''. rewrite <- Hk. apply (do_ack_record c now m s2 l s' r H). }
+  assert (K : forall (s2 : dstate) b, (s2, Some (mk_reply c RNak m 0 b)) = (s', Some r) -> is_ack r = true -> False).
+  { intros s2 b H Ha. apply pair_equal_spec in H as [_ H]. inversion H. subst r. discriminate. }
+  destruct oper;
+    repeat match goal with
+           | |- context [if ?b then _ else _] => destruct b
+           end;
+    intros H Ha;
+    try (exfalso; apply (K _ _ H Ha));
+    try (apply pair_equal_spec in H as [_ H]; discriminate);
+    try (assert (E := H); apply pair_equal_spec in E as [E _];
+         match type of H with do_ack _ _ _ ?s2 _ = _ => apply (A s2 s' H eq_refl) end).
+Qed.
+
+(* every ACK along every history from ANY state: the binding is recorded until now + the granted time *)
+Theorem record_covers_any_state : forall c s h t, In t (trace c s h) -> record_covers_grant t = true.
+Proof.
+  intros c s h t Hin. pose proof (trace_in_step c h s t Hin) as E. unfold record_covers_grant.
+  destruct (op_msg (t_op t)) as [m|] eqn:Hm; auto.
+  destruct (t_reply t) as [r|] eqn:Hr; auto.
+  destruct (is_ack r) eqn:Ha; auto.
+  destruct (t_op t) as [now m'|now m'|m'|m'|x|x|now|k te] eqn:O; simpl in Hm; inversion Hm; subst m'; simpl in E.
+  - apply discover_shape in E as [x E]. subst r. discriminate.
+  - destruct (request_ack_record c now _ m _ r E Ha) as [l3 [T [S [X [G _]]]]].
+    rewrite T, S, X, G. simpl. apply Z.leb_refl.
+  - pose proof (decline_any c (parse_effect c (t_pre t) m) m) as D. rewrite E in D. discriminate.
+  - unfold handleRelease in E. destruct (findOrCreate _ _ _ _). apply pair_equal_spec in E as [_ E]. discriminate.
+Qed.
